@@ -18,7 +18,8 @@ from props import c09
 
 LEVEL = "exploration"
 RULE = ("one case = one crossing (stream.AsyncFIFO / ClockDomainCrossing depth 4/8/16, buffered or not, with or without common reset; "
-        "BusSynchronizer widths 1..8 and 16; AXILiteClockDomainCrossing; stream.Monitor in another domain) x one PRNG edge schedule "
+        "BusSynchronizer widths 1..8 and 16; AXILiteClockDomainCrossing; stream.Monitor in another domain; UART with its PHY in "
+        "another domain, polled through a real CSR bank) x one PRNG edge schedule "
         "(independent per-domain edge probabilities, coinciding edges, fairness bound; ratio-bounded R=1..3 for the bus synchroniser) x "
         "metastability injection at every synchroniser (each changing bit of a first flop sampled in the instant of the change resolves "
         "to old or new) x producer/consumer schedules (x reset pulses for the common-reset variant). Non-trivial = >= 20 tokens crossed "
@@ -28,9 +29,9 @@ ASSUMPTIONS = ["migen tracer shim (names only)", "metastability is modelled at d
                "BusSynchronizer timeout (128 / 64) is longer than one request/acknowledge round trip at ratio <= 3",
                "a reset pulse lasts at least 3 cycles of each of the two clocks (AsyncResetSynchronizer guarantee)"]
 FLOORS = {"quick": {"tokens_crossed": 10000, "injections": 15000, "coinciding_edge_ticks": 50000, "bussync_output_updates": 4000,
-                    "n_edge_patterns": 300, "axil_bytes_compared": 3000, "resets_applied": 80},
+                    "n_edge_patterns": 300, "axil_bytes_compared": 3000, "resets_applied": 80, "uart_bytes_crossed": 1500},
           "thorough": {"tokens_crossed": 600000, "injections": 400000, "coinciding_edge_ticks": 1000000, "bussync_output_updates": 80000,
-                       "n_edge_patterns": 5000, "axil_bytes_compared": 100000, "resets_applied": 2000}}
+                       "n_edge_patterns": 5000, "axil_bytes_compared": 100000, "resets_applied": 2000, "uart_bytes_crossed": 60000}}
 SHARD_TIMEOUT = {"quick": 900, "thorough": 3000}
 N_SAMPLES = 3
 
@@ -53,6 +54,8 @@ def plan(tier, seed):
         cases.append({"kind": "axilcdc", "seed": "%d/C05/axilcdc/%d" % (seed, k)})
     for k in range(per * 4):
         cases.append({"kind": "monitor", "seed": "%d/C05/monitor/%d" % (seed, k)})
+    for k in range(per * 4):
+        cases.append({"kind": "uartcd", "seed": "%d/C05/uartcd/%d" % (seed, k)})
     n = 64 if tier == "quick" else 192
     return [{"id": "cdc%03d" % i, "cls": "cdc", "cases": cases[i::n]} for i in range(n)]
 
@@ -367,6 +370,90 @@ def run_axilcdc(case, rng):
                    "capped": not ok}, sched, inj, bench)
 
 
+# ------------------------------------------------------------------------------------ UART with its PHY in another domain
+def run_uartcd(case, rng):
+    """UART(phy_cd != 'sys'): both FIFOs of the core become asynchronous FIFOs between the CSR side (domain a) and the PHY side
+    (domain b). Software polls through a real CSR bank in a; a PHY model produces/consumes bytes in b. Every byte software wrote
+    leaves towards the PHY exactly once and in order; every byte the PHY delivered is read by software exactly once and in order."""
+    from litex.soc.cores.uart import UART
+    from props.c19lib import CSRTop, CSRMaster
+    depth = rng.choice([4, 8, 16])               # migen's AsyncFIFO refuses depths below 4
+    core = UART(phy=None, tx_fifo_depth=depth, rx_fifo_depth=depth, phy_cd="b")
+    ctop = CSRTop(core)
+    top = Module()
+    top.clock_domains.cd_a = ClockDomain("a", reset_less=True)
+    top.clock_domains.cd_b = ClockDomain("b", reset_less=True)
+    top.submodules.ctop = ClockDomainsRenamer({"sys": "a"})(ctop)
+    sched, inj = mk_env(rng)
+    n = case.get("n", 40)
+    tx_bytes = [(37 * k + 11) & 0xff for k in range(n)]
+    rx_bytes = [(53 * k + 5) & 0xff for k in range(n)]
+    got = []
+    left = list(tx_bytes)
+    state = {"polls": 0}
+
+    def prog():
+        idle = 0
+        while idle < 400:
+            did = False
+            if left and rng.random() < 0.7:
+                f = (yield ("r", "txfull", None))[2]
+                if not f:
+                    yield ("w", "rxtx", left.pop(0))
+                    did = True
+            if len(got) < n and rng.random() < 0.7:
+                e = (yield ("r", "rxempty", None))[2]
+                if not e:
+                    got.append((yield ("r", "rxtx", None))[2])
+                    yield ("w", "ev_pending", 2)          # acknowledging the rx event pops the FIFO
+                    did = True
+            state["polls"] += 1
+            if rng.random() < 0.3:
+                yield ("idle", rng.randint(1, 6))
+            idle = 0 if (did or left or len(got) < n) else idle + 1
+            if not did and not left and len(got) >= n:
+                yield ("idle", 1)
+    bench = Bench(top, clocks={"a": 10, "b": 10}, cap=n * 400 + 6000, overrides=inj.overrides, scheduler=sched)
+    bench.precommit_hooks = [inj.hook]
+    master = bench.add(CSRMaster(ctop, prog(), gap=1), "a")
+    toks = [{"first": 0, "last": 0, "pay": (x,), "par": ()} for x in rx_bytes]
+    prod = bench.add(SourceDriver(core.sink, toks, make_sched(rng)[0], rng), "b")
+    bench.add(SinkDriver(core.source, make_sched(rng)[0]), "b")
+    in_mon = bench.add(EndpointMonitor(core.sink, "phy->uart"), "b")
+    out_mon = bench.add(EndpointMonitor(core.source, "uart->phy", check_stability=True), "b")
+
+    class End:
+        def signals(self):
+            return []
+
+        def step(self, v, c):
+            return None
+
+        def done(self):
+            return master.finished and len(out_mon.log) >= n
+    bench.add(End(), "a")
+    bench._force_primary = "a"
+    ok = bench.run()
+    errs = []
+    sent = [e[3][0] for e in out_mon.log]
+    acc = [e[3][0] for e in in_mon.log]
+    wrote = tx_bytes[:n - len(left)]
+    if sent != wrote[:len(sent)]:
+        k = next(i for i, (x, y) in enumerate(zip(sent + [None], wrote + [None])) if x != y)
+        errs.append({"kind": "tx-byte-altered-duplicated-or-reordered", "index": k, "left_the_uart": sent[k:k + 4], "software_wrote": wrote[k:k + 4]})
+    elif len(sent) < len(wrote) and not ok:
+        errs.append({"kind": "tx-byte-lost-or-stalled", "left_the_uart": len(sent), "software_wrote": len(wrote)})
+    if got != acc[:len(got)]:
+        k = next(i for i, (x, y) in enumerate(zip(got + [None], acc + [None])) if x != y)
+        errs.append({"kind": "rx-byte-altered-duplicated-or-reordered", "index": k, "software_read": got[k:k + 4], "phy_delivered": acc[k:k + 4]})
+    elif len(got) < len(acc) and not ok:
+        errs.append({"kind": "rx-byte-lost-or-stalled", "software_read": len(got), "phy_delivered": len(acc)})
+    for sv in out_mon.stab_viol[:1]:
+        errs.append({"kind": "source-" + sv["kind"], "at": sv})
+    return finish({"errs": errs[:3], "tokens": len(sent) + len(got), "updates": 0, "resets": 0, "axil": 0, "uart": len(sent) + len(got),
+                   "capped": not ok and not errs and (len(sent) < n or len(got) < n)}, sched, inj, bench)
+
+
 # ------------------------------------------------------------------------------------ stream.Monitor in another domain
 def run_monitor(case, rng):
     top = Module()
@@ -469,6 +556,8 @@ def run_case(case):
         return run_bussync(case, rng)
     if k == "axilcdc":
         return run_axilcdc(case, rng)
+    if k == "uartcd":
+        return run_uartcd(case, rng)
     return run_monitor(case, rng)
 
 
@@ -487,6 +576,7 @@ def run_shard(shard):
         col.ev("monitor_latch_checks", r["updates"] if case["kind"] == "monitor" else 0)
         col.ev("axil_bytes_compared", r["axil"])
         col.ev("resets_applied", r["resets"])
+        col.ev("uart_bytes_crossed", r.get("uart", 0))
         col.cov("edge_patterns", r["pattern"])
         col.cov("kinds", case["kind"])
         key = case["kind"] if case["kind"] != "bussync" else "bussync/w%s" % ("1" if case["width"] == 1 else "n")
